@@ -649,6 +649,125 @@ Proof.
   - vm_compute. reflexivity.
 Qed.
 
+(* ---- Display then FromStr gives the version back, for every version FromStr can produce ---- *)
+Lemma num_app l : forall a r, num_of_digits a (l ++ r) = num_of_digits (num_of_digits a l) r.
+Proof. induction l as [|x l IH]; intros a r; [reflexivity|]. cbn [app num_of_digits]. apply IH. Qed.
+
+Lemma dec_digits_acc fuel : forall n acc, dec_digits fuel n acc = dec_digits fuel n [] ++ acc.
+Proof.
+  induction fuel as [|f IH]; intros n acc; [reflexivity|]. cbn [dec_digits].
+  destruct (n <? 10)%N; [reflexivity|].
+  rewrite (IH (n / 10)%N ((48 + n mod 10)%N :: acc)), (IH (n / 10)%N [(48 + n mod 10)%N]).
+  rewrite <- app_assoc. reflexivity.
+Qed.
+
+Lemma is_digit_48 d : (d < 10)%N -> is_digit (48 + d) = true.
+Proof. intros H. unfold is_digit. apply andb_true_iff. split; apply N.leb_le; lia. Qed.
+
+Lemma log2_div10 n : (10 <= n)%N -> (N.log2 (n / 10) < N.log2 n)%N.
+Proof.
+  intros H. destruct (N.eq_dec (n / 10) 0) as [E|E].
+  - rewrite E. cbn. apply N.log2_pos. lia.
+  - assert (H2 : (2 * (n / 10) <= n)%N).
+    { assert (10 * (n / 10) <= n)%N by (apply N.mul_div_le; lia). lia. }
+    apply N.log2_le_mono in H2. rewrite N.log2_double in H2 by (apply N.neq_0_lt_0; exact E). lia.
+Qed.
+
+Lemma dec_digits_spec fuel : forall n, (N.log2 n < N.of_nat fuel)%N ->
+  let ds := dec_digits fuel n [] in
+  num_of_digits 0 ds = n /\ forallb is_digit ds = true /\ ds <> [].
+Proof.
+  induction fuel as [|f IH]; intros n Hf; [lia|]. cbn zeta. cbn [dec_digits].
+  destruct (n <? 10)%N eqn:E.
+  - apply N.ltb_lt in E. rewrite N.mod_small by exact E. cbn [num_of_digits forallb].
+    rewrite is_digit_48 by exact E. repeat split; [lia|discriminate].
+  - apply N.ltb_ge in E. rewrite dec_digits_acc.
+    destruct (IH (n / 10)%N) as (H1 & H2 & H3).
+    { pose proof (log2_div10 n E). lia. }
+    rewrite num_app, H1. cbn [num_of_digits]. rewrite forallb_app, H2. cbn [forallb].
+    rewrite is_digit_48 by (apply N.mod_lt; lia).
+    repeat split.
+    + pose proof (N.div_mod n 10 ltac:(lia)) as Hdm. revert Hdm. generalize (n / 10)%N (n mod 10)%N. intros q m Hdm. lia.
+    + intros Hnil. apply app_eq_nil in Hnil. destruct Hnil. discriminate.
+Qed.
+
+Lemma show_dec_spec n :
+  num_of_digits 0 (show_dec n) = n /\ forallb is_digit (show_dec n) = true /\ show_dec n <> [].
+Proof. unfold show_dec. apply dec_digits_spec. lia. Qed.
+
+Lemma span_digits_colon ds rest : forallb is_digit ds = true ->
+  span is_digit (ds ++ 58%N :: rest) = (ds, 58%N :: rest).
+Proof.
+  induction ds as [|d ds IH]; intros H; [reflexivity|].
+  cbn [forallb] in H. apply andb_true_iff in H. destruct H as [Hd Hr].
+  cbn [app span]. rewrite Hd, (IH Hr). reflexivity.
+Qed.
+
+Lemma split_revision_join rest u r : split_revision rest = (u, r) ->
+  u ++ (match r with Some x => 45%N :: x | None => [] end) = rest.
+Proof.
+  unfold split_revision. destruct (span (fun c => negb (c =? 45)%N) (rev rest)) as [tail_rev before_rev] eqn:E.
+  pose proof (span_app _ _ _ _ E) as Happ. pose proof (span_stop _ _ _ _ E) as Hstop.
+  destruct before_rev as [|c up_rev].
+  - intros H. injection H as <- <-. apply app_nil_r.
+  - destruct up_rev as [|y up_rev']; [intros H; injection H as <- <-; apply app_nil_r|].
+    destruct (rev tail_rev) as [|z tl] eqn:Et; [intros H; injection H as <- <-; apply app_nil_r|].
+    destruct (forallb is_revision_char (z :: tl)); intros H; injection H as <- <-; [|apply app_nil_r].
+    apply negb_false_iff, N.eqb_eq in Hstop. subst c.
+    rewrite <- (rev_involutive rest), <- Happ, rev_app_distr. cbn [rev]. rewrite <- Et, <- !app_assoc. reflexivity.
+Qed.
+
+Theorem parse_show_version text v : parse_version text = Some v -> parse_version (show_version v) = Some v.
+Proof.
+  unfold parse_version. destruct (span is_digit text) as [ds after] eqn:Es.
+  set (we := match ds, after with
+             | _ :: _, colon :: rest => if (colon =? 58)%N && body_ok rest then Some rest else None
+             | _, _ => None end).
+  destruct we as [rest|] eqn:Ew.
+  - (* an epoch *)
+    destruct (num_of_digits 0 ds <=? u32_max)%N eqn:Eu; [|discriminate].
+    destruct (split_revision rest) as [u r] eqn:Er. intros H. injection H as <-.
+    unfold show_version. cbn [epoch upstream revision].
+    assert (Hb : body_ok rest = true).
+    { subst we. destruct ds; [discriminate|]. destruct after as [|c a]; [discriminate|].
+      destruct ((c =? 58)%N && body_ok a) eqn:Ec; [|discriminate]. injection Ew as ->.
+      apply andb_true_iff in Ec. apply Ec. }
+    rewrite (split_revision_join rest u r Er).
+    destruct (show_dec_spec (num_of_digits 0 ds)) as (Hn & Hd & Hne).
+    rewrite <- app_assoc. cbn [app]. rewrite (span_digits_colon _ rest Hd).
+    destruct (show_dec (num_of_digits 0 ds)) as [|d0 dr] eqn:Esd; [congruence|].
+    rewrite N.eqb_refl, Hb. cbn [andb]. rewrite Hn, Eu, Er. reflexivity.
+  - (* no epoch: the printed text is the text that was read *)
+    destruct (body_ok text) eqn:Eb; [|discriminate].
+    destruct (split_revision text) as [u r] eqn:Er. intros H. injection H as <-.
+    unfold show_version. cbn [epoch upstream revision app].
+    rewrite (split_revision_join text u r Er), Es. fold we. rewrite Ew, Eb, Er. reflexivity.
+Qed.
+
+Definition readable_version (v : version) : Prop := exists text, parse_version text = Some v.
+Definition readable_rel (r : rel version) : Prop :=
+  match r_ver r with Some (_, v) => readable_version v | None => True end.
+
+Lemma readable_roundtrips r : readable_rel r -> rel_roundtrips version parse_version show_version r.
+Proof.
+  unfold readable_rel, rel_roundtrips. destruct (r_ver r) as [[o v]|]; [|trivial].
+  intros [text H]. eapply parse_show_version. exact H.
+Qed.
+
+(* fields built through the constructors, or through set_version, from versions that were read
+   from text: the typed view is the field *)
+Theorem deb_constructed f : Forall (Forall readable_rel) f ->
+  (exists t, deb_build_field f = Ok t /\ deb_tree_field t = Ok f) /\
+  (exists t, deb_sv_field f = Ok t /\ deb_tree_field t = Ok f).
+Proof.
+  intros H.
+  assert (H' : Forall (Forall (rel_roundtrips version parse_version show_version)) f).
+  { eapply Forall_impl; [|exact H]. intros e He. eapply Forall_impl; [|exact He]. apply readable_roundtrips. }
+  split.
+  - apply (build_field_view version parse_version show_version f H').
+  - apply (sv_field_view version parse_version show_version f H').
+Qed.
+
 (* set_version before the fix: GreaterThan / LessThan written with one character *)
 Lemma deb_set_version_before_fix_refuted :
   exists one two t,
